@@ -14,6 +14,14 @@ save ∘ load ∘ save for objects WITH (flat) segments — property C06, second
     offset 0) and one hypothesis on the saved object (`AddrSeparate`: an allocated section that is not a
     declared member of a segment does not lie in that segment's address range).
  3. `save_load_save_flat` : 1 and 2 together.
+ 4. nested segments: `reload_reports_saved_nested`, `loaded_satisfies_Loaded_nested`,
+    `validate_silent_reloaded_nested_unconditional` (`SavedSane.segInside` discharged by
+    `RoundTrip.segInside_nested`).
+ 5. input-side forms of the hypotheses on the saved object: `noWrap64InB`, `addrSeparateInB`
+    (`noWrap64_of_input`, `addrSeparate_of_input`), `save_load_save_flat_input`,
+    `validate_silent_reloaded_flat_input`, `loaded_satisfies_Loaded_flat_input`.
+ 6. save ∘ load ∘ save with nested segments: `save_load_save_of_members_nested`,
+    `save_load_save_nested_input` (member lists checked by `membersRecomputedInB`).
 -/
 import ElfioVerif.Lemmas.RoundTrip2
 import ElfioVerif.Props.Compose
@@ -81,21 +89,17 @@ theorem reloaded_segs {c : Cls} {enc : Enc} {h : Bytes} {secs : List SecBuf} {se
     unfold reAux auxOf
     rw [hidx j _ hg, hg2]
 
-/-- **save_load_save_of_members** (C06) : a flat writer-domain object whose section data are in memory;
-    `ResaveOkR` / `FrontOk` (the side conditions of `C06.save_twice_runs`, on the input object);
-    `MembersRecomputed` on the saved object.  Saving, loading the bytes with the model's loader (eager
-    or lazy, either stream kind, into any object without address translation) and saving the loaded
-    object into the same initial stream succeeds and yields the same stream. -/
-theorem save_load_save_of_members {o : Obj} {os : OStream} {r : SaveRes} {hd : Bytes}
-    (hs : save o os = .ok r) (hok : r.ok = true) (hg : os.Good) (hos : os.content.length < 9223372036854775808)
-    (D : FlatDomain o hd) (hw : NoWrap64 r.obj.secs r.obj.segs)
+/-- the core of save ∘ load ∘ save: `r2` is what the loader yields for the bytes of the successful save
+    `r` (`Reloaded`); then saving `r2.obj` into the same initial stream succeeds and yields the same stream -/
+theorem save_load_save_core {o : Obj} {os : OStream} {r : SaveRes} {hd hF : Bytes} {img : Bytes} {isLazy : Bool}
+    {r2 : LoadRes} {o2 : Obj} {st : IStream}
+    (hs : save o os = .ok r) (hok : r.ok = true) (D : ComposeDomain o hd)
     (hres : ∀ a ∈ o.secs, ResidentFull a)
     (hfront : C06.FrontOk o.segs) (hrs : C06.ResaveOkR o hd)
     (hmem : MembersRecomputed r.obj.secs r.obj.segs)
-    (o2 : Obj) (k : StreamKind) (isLazy : Bool) (htr2 : o2.trans = []) :
-    ∃ (r2 : LoadRes) (r3 : SaveRes), load o2 { data := r.os.content, kind := k } isLazy = .ok r2 ∧ r2.ok = true ∧
-      save r2.obj os = .ok r3 ∧ r3.ok = true ∧ r3.os = r.os := by
-  obtain ⟨hF, r2, hhF, hload, hok2, R⟩ := reload_reports_saved_flat hs hok hg hos D hw o2 k isLazy htr2
+    (hhF : r.obj.hdr = some hF) (hload : load o2 st isLazy = .ok r2)
+    (R : Reloaded o.cls o.enc hF r.obj.secs r.obj.segs img isLazy r2.obj) :
+    ∃ r3 : SaveRes, save r2.obj os = .ok r3 ∧ r3.ok = true ∧ r3.os = r.os := by
   have hsegIdx := idx_of_B Seg.index o.segs D.input.segIdx
   have hsecIdx := idx_of_B SecBuf.index o.secs D.input.secIdx
   obtain ⟨fsec, fseg, ec, ee, et⟩ := C05.save_writes_fields hs hok hsegIdx
@@ -132,9 +136,26 @@ theorem save_load_save_of_members {o : Obj} {os : OStream} {r : SaveRes} {hd : B
     have e3 : y.stype = (r.obj.secs[idx.toNat]).stype := by rw [ry.rest]
     rw [e1, e2, sa.addrSet]
     exact (hmemset g hgm idx hidx _ (List.getElem?_eq_getElem hiY) (by rw [← e3]; exact hnn)).symm
-  obtain ⟨r3, h3, hok3, hos3⟩ := save_congr (X := r2.obj) (Y := r.obj) S (auxOf r2.obj.segs)
+  exact save_congr (X := r2.obj) (Y := r.obj) S (auxOf r2.obj.segs)
     (R.clsEq.trans ec.symm) (R.encEq.trans ee.symm) (by rw [R.trans, et, D.tr]) R.hdr hhF hsegs hrel
     (fun g hgm idx hidx => ⟨g, hgm, idx, hidx, rfl⟩) hagain hok
+
+/-- **save_load_save_of_members** (C06) : a flat writer-domain object whose section data are in memory;
+    `ResaveOkR` / `FrontOk` (the side conditions of `C06.save_twice_runs`, on the input object);
+    `MembersRecomputed` on the saved object.  Saving, loading the bytes with the model's loader (eager
+    or lazy, either stream kind, into any object without address translation) and saving the loaded
+    object into the same initial stream succeeds and yields the same stream. -/
+theorem save_load_save_of_members {o : Obj} {os : OStream} {r : SaveRes} {hd : Bytes}
+    (hs : save o os = .ok r) (hok : r.ok = true) (hg : os.Good) (hos : os.content.length < 9223372036854775808)
+    (D : FlatDomain o hd) (hw : NoWrap64 r.obj.secs r.obj.segs)
+    (hres : ∀ a ∈ o.secs, ResidentFull a)
+    (hfront : C06.FrontOk o.segs) (hrs : C06.ResaveOkR o hd)
+    (hmem : MembersRecomputed r.obj.secs r.obj.segs)
+    (o2 : Obj) (k : StreamKind) (isLazy : Bool) (htr2 : o2.trans = []) :
+    ∃ (r2 : LoadRes) (r3 : SaveRes), load o2 { data := r.os.content, kind := k } isLazy = .ok r2 ∧ r2.ok = true ∧
+      save r2.obj os = .ok r3 ∧ r3.ok = true ∧ r3.os = r.os := by
+  obtain ⟨hF, r2, hhF, hload, hok2, R⟩ := reload_reports_saved_flat hs hok hg hos D hw o2 k isLazy htr2
+  obtain ⟨r3, h3, hok3, hos3⟩ := save_load_save_core hs hok D.toComposeDomain hres hfront hrs hmem hhF hload R
   exact ⟨r2, r3, hload, hok2, h3, hok3, hos3⟩
 
 /-! ### 2. `members_recomputed` : the loader's rule returns the declared member lists -/
@@ -783,5 +804,107 @@ example : noWrap64InB (objOf exTwoM) ((objOf exTwoM).hdr.getD []) = true ∧
     noWrap64InB (objOf exFlatM) ((objOf exFlatM).hdr.getD []) = true ∧
     addrSeparateInB (objOf exFlatM) ((objOf exFlatM).hdr.getD []) = true := by
   refine ⟨by decide +kernel, by decide +kernel, by decide +kernel, by decide +kernel⟩
+
+/-- `save_load_save_flat_input` on `exTwoM`: every hypothesis is a decidable fact about the object built
+    with the API -/
+example (k : StreamKind) (isLazy : Bool) :
+    ∃ (r2 : LoadRes) (r3 : SaveRes),
+      load {} { data := (savedOf (objOf exTwoM)).os.content, kind := k } isLazy = .ok r2 ∧ r2.ok = true ∧
+      save r2.obj {} = .ok r3 ∧ r3.ok = true ∧ r3.os = (savedOf (objOf exTwoM)).os :=
+  save_load_save_flat_input exTwo_ok.saved exTwo_ok.ok ⟨rfl, rfl⟩ (by decide)
+    ⟨exTwo_ok.dom, exTwo_resave.cov, memberDomain_of_B exTwo_resave.members, exTwo_resave.res,
+      Or.inl exTwo_resave.front, C06.resaveOkR_of_B exTwo_resave.resave⟩
+    (by decide +kernel) (by decide +kernel) {} k isLazy rfl
+
+/-- `loaded_satisfies_Loaded_nested` on `exNestedM` -/
+example (k : StreamKind) :
+    ∃ r2 : LoadRes, load {} { data := (savedOf (objOf exNestedM)).os.content, kind := k } false = .ok r2 ∧
+      r2.ok = true ∧
+      C05.Loaded (objOf exNestedM).cls (objOf exNestedM).enc r2.obj.secs r2.obj.segs (savedOf (objOf exNestedM)).os.content := by
+  obtain ⟨h1, h2, h3, h4, -⟩ := exNested_ok
+  obtain ⟨r2, a, b, -, -, -, -, L⟩ := loaded_satisfies_Loaded_nested h1 h2 ⟨rfl, rfl⟩ (by decide) h3 h4 {} k rfl
+  exact ⟨r2, a, b, L⟩
+
+/-! ### 6. save ∘ load ∘ save with nested segments (member lists checked, not characterised) -/
+
+/-- **save_load_save_of_members_nested** (C06) : objects with flat and nested segments (`NestedDomain`).
+    As `save_load_save_of_members`; for nested segments `MembersRecomputed` (decidable) is not derived from
+    structural hypotheses — see `membersRecomputedInB` for its input-side form. -/
+theorem save_load_save_of_members_nested {o : Obj} {os : OStream} {r : SaveRes} {hd : Bytes} {selE selN : Nat → Bool}
+    (hs : save o os = .ok r) (hok : r.ok = true) (hg : os.Good) (hos : os.content.length < 9223372036854775808)
+    (D : NestedDomain o hd selE selN) (hw : NoWrap64 r.obj.secs r.obj.segs)
+    (hres : ∀ a ∈ o.secs, ResidentFull a)
+    (hfront : C06.FrontOk o.segs) (hrs : C06.ResaveOkR o hd)
+    (hmem : MembersRecomputed r.obj.secs r.obj.segs)
+    (o2 : Obj) (k : StreamKind) (isLazy : Bool) (htr2 : o2.trans = []) :
+    ∃ (r2 : LoadRes) (r3 : SaveRes), load o2 { data := r.os.content, kind := k } isLazy = .ok r2 ∧ r2.ok = true ∧
+      save r2.obj os = .ok r3 ∧ r3.ok = true ∧ r3.os = r.os := by
+  obtain ⟨hF, r2, hhF, hload, hok2, R⟩ := reload_reports_saved_nested hs hok hg hos D hw o2 k isLazy htr2
+  obtain ⟨r3, h3, hok3, hos3⟩ := save_load_save_core hs hok D.toComposeDomain hres hfront hrs hmem hhF hload R
+  exact ⟨r2, r3, hload, hok2, h3, hok3, hos3⟩
+
+/-- the loader's membership rule on header-field tuples -/
+def specMembersK (ks : List HKey) (g : Seg) : List Nat :=
+  (List.range ks.length).filter fun i =>
+    match ks[i]? with
+    | some k => Spec.inSegment k.2.2.2.2.2.1.toNat k.2.2.2.2.1.toNat k.1.toNat k.2.1.toNat
+        g.stype.toNat g.offset.toNat g.vaddr.toNat g.filesz.toNat g.memsz.toNat
+    | none => false
+
+theorem specMembers_eq_K (secs : List SecBuf) (g : Seg) : specMembers secs g = specMembersK (secs.map hdrOf) g := by
+  unfold specMembers specMembersK
+  rw [List.length_map]
+  apply List.filter_congr
+  intro i _
+  rw [List.getElem?_map]
+  cases secs[i]? <;> rfl
+
+def membersRecomputedK (ks : List HKey) (segs : List Seg) : Bool :=
+  segs.all fun g => specMembersK ks g == g.secs.map (·.toNat)
+
+/-- `MembersRecomputed` of the object `save` will leave, evaluated on the input object -/
+def membersRecomputedInB (o : Obj) (hd : Bytes) : Bool :=
+  match layoutOf (preSave o) hd with
+  | .ok (some res) => membersRecomputedK (res.secs.map hdrOf) res.segs
+  | _ => true
+
+theorem membersRecomputed_of_input {o : Obj} {os : OStream} {r : SaveRes} {hd : Bytes}
+    (hs : save o os = .ok r) (hok : r.ok = true) (hh : o.hdr = some hd) (h : membersRecomputedInB o hd = true) :
+    MembersRecomputed r.obj.secs r.obj.segs := by
+  obtain ⟨res, hl, hsegs, -, he⟩ := C04.save_secs_hdr o os r hd hs hok hh
+  unfold membersRecomputedInB at h
+  rw [hl] at h
+  simp only at h
+  rw [← he, ← hsegs] at h
+  unfold membersRecomputedK at h
+  simp only [List.all_eq_true, beq_iff_eq] at h
+  intro g hg
+  rw [specMembers_eq_K]
+  exact h g hg
+
+/-- **save_load_save_nested_input** (C06) : objects with flat and nested segments, every hypothesis
+    decidable and on the object to be saved (`NestedDomain`, data in memory, `FrontOk`, `ResaveOkR`,
+    `noWrap64InB`, `membersRecomputedInB`). -/
+theorem save_load_save_nested_input {o : Obj} {os : OStream} {r : SaveRes} {hd : Bytes} {selE selN : Nat → Bool}
+    (hs : save o os = .ok r) (hok : r.ok = true) (hg : os.Good) (hos : os.content.length < 9223372036854775808)
+    (D : NestedDomain o hd selE selN) (hw : noWrap64InB o hd = true)
+    (hres : ∀ a ∈ o.secs, ResidentFull a)
+    (hfront : C06.FrontOk o.segs) (hrs : C06.ResaveOkR o hd)
+    (hmem : membersRecomputedInB o hd = true)
+    (o2 : Obj) (k : StreamKind) (isLazy : Bool) (htr2 : o2.trans = []) :
+    ∃ (r2 : LoadRes) (r3 : SaveRes), load o2 { data := r.os.content, kind := k } isLazy = .ok r2 ∧ r2.ok = true ∧
+      save r2.obj os = .ok r3 ∧ r3.ok = true ∧ r3.os = r.os :=
+  save_load_save_of_members_nested hs hok hg hos D (noWrap64_of_input hs hok D.hdr hw) hres hfront hrs
+    (membersRecomputed_of_input hs hok D.hdr hmem) o2 k isLazy htr2
+
+/-- non-vacuity: `exNestedM` (a PT_LOAD nested in a PT_LOAD) -/
+example (k : StreamKind) (isLazy : Bool) :
+    ∃ (r2 : LoadRes) (r3 : SaveRes),
+      load {} { data := (savedOf (objOf exNestedM)).os.content, kind := k } isLazy = .ok r2 ∧ r2.ok = true ∧
+      save r2.obj {} = .ok r3 ∧ r3.ok = true ∧ r3.os = (savedOf (objOf exNestedM)).os := by
+  obtain ⟨h1, h2, h3, -, -⟩ := exNested_ok
+  have hfront : Sv.NoZeroOffset (objOf exNestedM).segs := by decide +kernel
+  exact save_load_save_nested_input h1 h2 ⟨rfl, rfl⟩ (by decide) h3 (by decide +kernel) (by decide +kernel)
+    (Or.inl hfront) (C06.resaveOkR_of_B (by decide +kernel)) (by decide +kernel) {} k isLazy rfl
 
 end ElfioVerif.Compose
